@@ -651,10 +651,11 @@ static void do_op(char *o)
 		emit_state(ip);
 		break;
 
+	case 'P':		/* forced pump: not skipped after a -1 (API misuse, by hand only) */
 	case 'p': {
 		int rc;
 
-		if (ip == NULL || dead[k] || nf < 5) {
+		if (ip == NULL || (dead[k] && o[0] == 'p') || nf < 5) {
 			emit("skip", 4);
 			return;
 		}
